@@ -117,3 +117,64 @@ def execute_watcher_model(ctx, rule):
         ctx.fail(rule, f, f.node, "dispatch model (_execute_watcher): %s (%d disagreeing case(s))" % (problems[0], len(problems)), key=f.qualname + "::execute-model")
     else:
         ctx.ok(rule, f, f.node, "dispatch model: _execute_watcher hands an args-mode callback the events and a kwargs-mode callback the values the events installed; coroutines scheduled once; Skip swallowed (%d cases)" % n)
+
+
+def snapshot_model(ctx, rule, prop):
+    """Parameters._call_watcher interpreted in two situations the per-event dispatch loop creates:
+
+    * the watcher was UNREGISTERED after the dispatch snapshot was taken (an earlier watcher of the same event rebuilt
+      the dependency watchers: the old ones are the only carriers of this event; the new ones never see it) -- it must
+      still be served (executed, or queued in a batch);
+    * inside a batch, an event for the same parameter is ALREADY queued (for another watcher) when this watcher -- not
+      queued yet, e.g. installed by a link made in the middle of the batch -- meets its first event: it must be queued,
+      and the new event recorded."""
+    cw = ctx.repo.func(P + "Parameters._call_watcher")
+    problems, n = [], 0
+    for situation, batch in (("unregistered", False), ("unregistered", True), ("prior-event", True)):
+        w = Obj("watcher", onlychanged=False, queued=False, __eqclass__="w")
+        other = Obj("watcher_of_somebody_else", onlychanged=False, queued=False, __eqclass__="o")
+        owner = Obj("owner", _param__private=Obj("private", watchers={} if situation == "unregistered" else {"a": {"value": [other, w]}}))
+        prior = Obj("earlier_event_of_the_batch", name="a", what="value", __eqclass__="prior")
+        ev = Obj("event", name="a", what="value", __eqclass__="this")
+        pa = Obj("param_a", watchers={})
+        ns = Obj("ns", _TRIGGER=False, _BATCH_WATCH=batch, _events=[prior] if situation == "prior-event" else [], _state_watchers=[other] if situation == "prior-event" else [],
+                 self_or_cls=owner, self=owner, __getitem__={"a": pa})
+        trace = []
+
+        def hook(name, args, kwargs):
+            if name.endswith("._changed"):
+                return True
+            if name.endswith("._execute_watcher"):
+                trace.append("execute")
+                return None
+            if name.endswith("._update_event_type"):
+                return Obj("typed_event")
+            if name == "_batch_call_watchers":
+                return Obj("scope")
+            return NotImplemented
+        it = Interp(ctx.hier, dyn=P + "Parameters", inline=lambda m: m not in ("_changed", "_execute_watcher", "_update_event_type"), call_hook=hook, strict_self_calls=True)
+        try:
+            outs = it.run_all(cw, {"self_": ns, "watcher": w, "event": ev})
+        except Unsupported as e:
+            raise AnalysisError("dispatch model: absint cannot interpret _call_watcher: %s" % e)
+        if len(outs) != 1 or outs[0].imprecise or outs[0].kind != "return":
+            raise AnalysisError("dispatch model: _call_watcher is not interpretable precisely (%s: %s)" % (situation, outs[0].notes[:2] if outs else "no outcome"))
+        n += 1
+        queued_w = any(x is w for x in ns.attrs["_state_watchers"])
+        queued_ev = any(x is ev for x in ns.attrs["_events"])
+        if situation == "unregistered":
+            served = (queued_w and queued_ev) if batch else bool(trace)
+            if not served:
+                problems.append("a watcher that was unregistered after the dispatch snapshot was taken is dropped (%s): when the first dependency watcher of an event re-resolves the parent's "
+                                "dependencies, the old watchers of the OTHER methods are the only carriers of that event -- those methods miss the change" % ("batch open" if batch else "no batch"))
+        else:
+            if not queued_w:
+                problems.append("inside a batch, a watcher meeting its first event is not queued because an event for the same parameter was already queued for another watcher: a link made "
+                                "in the middle of the batch never syncs and keeps the earlier value")
+            if not queued_ev:
+                problems.append("inside a batch, the later event of a parameter is not recorded: the flush delivers the earlier value")
+    ctx.abstract_cases += n
+    if problems:
+        ctx.fail(rule, cw, cw.node, "dispatch model (snapshot): %s (%d disagreeing case(s))" % (problems[0], len(problems)), key="%s::snapshot-model::%s" % (cw.qualname, prop))
+    else:
+        ctx.ok(rule, cw, cw.node, "dispatch model: a watcher unregistered after the snapshot is still served; in a batch a watcher is queued at its first event whatever is queued already")
